@@ -23,7 +23,6 @@ func (ex *Exec) forceKind(n *JNode, site ssa.Instruction, want JKind) {
 	if n.kind != JLazy {
 		return
 	}
-	deep := n.lz.depth > 0
 	var opts []lazyOpt
 	switch want {
 	case JStr:
@@ -39,8 +38,28 @@ func (ex *Exec) forceKind(n *JNode, site ssa.Instruction, want JKind) {
 	default:
 		opts = []lazyOpt{{JStr, false}, {JNum, false}, {JNum, true}, {JBool, false}, {JNull, false}, {JObj, false}, {JArr, false}}
 	}
+	// drop options excluded by earlier partial inspections (lazy interface values)
+	var kept []lazyOpt
+	for _, o := range opts {
+		if o.kind == JNull && n.lz.nonNull {
+			continue
+		}
+		if n.lz.excluded[o.kind] {
+			continue
+		}
+		kept = append(kept, o)
+	}
+	if len(kept) == 0 {
+		panic(infeasibleAbort())
+	}
+	opts = kept
 	k := ex.choose(len(opts), func(int) *Term { return nil }, site)
-	o := opts[k]
+	ex.setKind(n, opts[k], site)
+}
+
+// setKind materialises node n as the given kind (no fork).
+func (ex *Exec) setKind(n *JNode, o lazyOpt, site ssa.Instruction) {
+	deep := n.lz.depth > 0
 	nm := n.lz.name
 	n.kind = o.kind
 	switch o.kind {
@@ -163,8 +182,7 @@ func (ex *Exec) lazyMapSync(m *MapObj, site ssa.Instruction) {
 			continue
 		}
 		c := n.vals[i]
-		ex.forceKind(c, site, -1)
-		slot := newPtr(ex.jsonToIface(nil, site, c))
+		slot := newPtr(ex.lazyIfaceOf(nil, site, c))
 		m.entries = append(m.entries, &mapEntry{k: k, v: slot})
 		if h, ok := hashKey(k); ok {
 			m.idx[h] = len(m.entries) - 1
@@ -262,4 +280,99 @@ func evalTerm(t *Term, model map[string]ModelVal) ModelVal {
 	return ModelVal{Sort: t.Sort}
 }
 
-var _ = types.Typ
+
+// ---- lazy interface{} values: the JSON kind of a decoded value is decided only when the code
+// distinguishes it (type assertion, comparison, printing) ----
+
+var lazyIfaceType = types.NewNamed(types.NewTypeName(0, nil, "lazyJSONValue", nil), types.NewStruct(nil, nil), nil)
+
+func isLazyIface(i Iface) bool { return i.t == lazyIfaceType }
+
+// lazyIfaceOf returns the interface{} value for node n, deciding only null / non-null.
+func (ex *Exec) lazyIfaceOf(fr *Frame, site ssa.Instruction, n *JNode) Value {
+	if n.kind != JLazy {
+		return ex.jsonToIface(fr, site, n)
+	}
+	if !n.lz.nonNull {
+		if n.lz.excluded[JNull] {
+			n.lz.nonNull = true
+		} else if ex.choose(2, func(int) *Term { return nil }, site) == 1 {
+			ex.setKind(n, lazyOpt{JNull, false}, site)
+			return Iface{}
+		} else {
+			n.lz.nonNull = true
+		}
+	}
+	return Iface{t: lazyIfaceType, v: n}
+}
+
+// resolveIface materialises a lazy interface value completely (fork over the remaining kinds).
+func (ex *Exec) resolveIface(fr *Frame, site ssa.Instruction, i Iface) Iface {
+	if !isLazyIface(i) {
+		return i
+	}
+	n := i.v.(*JNode)
+	ex.forceKind(n, site, -1)
+	return ex.jsonToIface(fr, site, n).(Iface)
+}
+
+// lazyTypeAssert decides x.(T) for a lazy interface value: fork {kind matches T, kind differs}.
+func (ex *Exec) lazyTypeAssert(fr *Frame, site ssa.Instruction, i Iface, asserted types.Type) (Value, bool) {
+	n := i.v.(*JNode)
+	if n.kind != JLazy {
+		c := ex.jsonToIface(fr, site, n).(Iface)
+		if types.Identical(c.t, asserted) {
+			return c.v, true
+		}
+		return nil, false
+	}
+	var want JKind = -1
+	float := false
+	switch u := asserted.(type) {
+	case *types.Basic:
+		switch u.Kind() {
+		case types.String:
+			want = JStr
+		case types.Bool:
+			want = JBool
+		case types.Float64:
+			want = JNum
+			float = true
+		}
+	case *types.Map:
+		if isString(u.Key()) {
+			if it, ok := u.Elem().Underlying().(*types.Interface); ok && it.NumMethods() == 0 {
+				want = JObj
+			}
+		}
+	case *types.Slice:
+		if it, ok := u.Elem().Underlying().(*types.Interface); ok && it.NumMethods() == 0 {
+			want = JArr
+		}
+	}
+	_ = float
+	if want < 0 || n.lz.excluded[want] {
+		return nil, false // a JSON-decoded value never has this dynamic type
+	}
+	deep := n.lz.depth > 0
+	_ = deep
+	if ex.choose(2, func(int) *Term { return nil }, site) == 0 {
+		if want == JNum {
+			// integer or fractional literal: both decode to float64
+			if ex.choose(2, func(int) *Term { return nil }, site) == 0 {
+				ex.setKind(n, lazyOpt{JNum, false}, site)
+			} else {
+				ex.setKind(n, lazyOpt{JNum, true}, site)
+			}
+		} else {
+			ex.setKind(n, lazyOpt{want, false}, site)
+		}
+		c := ex.jsonToIface(fr, site, n).(Iface)
+		return c.v, true
+	}
+	if n.lz.excluded == nil {
+		n.lz.excluded = map[JKind]bool{}
+	}
+	n.lz.excluded[want] = true
+	return nil, false
+}
